@@ -5,6 +5,7 @@ import itertools
 import time
 
 from vf.adapt import toy
+from vf.checks import freshcmp
 from vf.engine.canon import canon
 from vf.engine.core import InternalError, Partial, pmap
 from vf.ref.toy import ToyRef, text
@@ -96,7 +97,27 @@ def case_of(words, data, accu, steps):
     return dict(kind="toy-run", words=list(words), data={str(k): v for k, v in data.items()}, accu=accu, steps=steps)
 
 
+FRESH_TEXTS = [
+    ".data\nn: .word 4\nresult: .word 0\n.text\nLDA n\nBRZ end\nloop:\nLDA result\nADD n\nSTO result\nLDA n\nDEC\nSTO n\nBRZ end\nZRO\nBRZ loop\nend:\n",
+    ".data\nt: .word 3, 4\nv: .word 0\n.text\nLDA m\nINC\nSTO m\nm:\nLDA t\nSTO v\n",
+    "ZRO\nBRZ 0xFFE\nINC\n",
+    "LDA 4095\nNOT\nSTO 2000\nXOR 2000\nBRZ 0\n",
+]
+
+
+def fresh_items():
+    """What the process did before must not change how a TOY program runs (each scenario in a fresh interpreter)."""
+    out = []
+    for t in FRESH_TEXTS:
+        for prelude in ([["toy_new", 64]], [["toy_new", 100], ["rv_new", "five_stage_pipeline", True]], [["toy_run", "l: INC\nBRZ l\nDEC\nBRZ 0x800\n"]],
+                        [["rv_load", t], ["toy_new", 4000]]):
+            out.append(("toy-run-history", prelude, ["toy_run", t, 120]))
+    return out
+
+
 def replay(case):
+    if case.get("kind") == "fresh":
+        return freshcmp.replay(case)
     data = {int(k): v for k, v in case["data"].items()}
     _r, bad = compare_run(case["words"], data, case["accu"], case["steps"], case.get("light", False), case.get("drive", "step"))
     return [(dict(oracle="toy-reference", field=f), f"[{'; '.join(text(w) for w in case['words'][:8])}] accu={case['accu']}: {d}") for f, d in bad]
@@ -198,4 +219,10 @@ def run(ctx):
     t0 = time.time()
     part = pmap(wrap_shard, [0x2000, 0x9000, 0x2FFF, 0x0FFF, 0x2005, 0x1FFF])
     ctx.space("pc-wrap-4096-words", part, t0)
+    t0 = time.time()
+    items = fresh_items()
+    part = pmap(freshcmp.shard, [items[i::16] for i in range(16) if items[i::16]])
+    ctx.space("run-history-fresh-interpreters", part, t0, programs=len(FRESH_TEXTS), preludes=4,
+              note="each scenario runs in its own interpreter; compared with the same program run in a pristine interpreter")
+    ctx.require("fresh-interpreter-differential")
     ctx.require("self-modify", "taken", "branch-out", "pc-wrap", "horizon", "driven-by-single", "driven-by-halves", "driven-by-beside")
